@@ -635,6 +635,301 @@ def normalise_slices(fn) -> int:
     return len(good)
 
 
+def normalise_gathers(fn) -> int:
+    """Equivalent spellings of a gather -> plain subscripts, in place (astutil.GatherCanon), after substituting the index
+    locals that only name a piece of such a spelling: a local bound ONCE to np.nonzero/flatnonzero/where(m), to
+    `<such a local>[k]`, or to `np.arange(n)[slice]`, whose every use is an index position (subscript index, index
+    argument of take, or the base of a constant subscript of another such local) and whose operands are not written
+    between the binding and the use, is replaced by its definition at the uses."""
+    from .astutil import single_locals, GatherCanon, _nonzero_mask, const_value
+    from .model import norm
+    src0 = ast.dump(fn.node)
+    defs = single_locals(fn)
+
+    def piece(v) -> bool:
+        if _nonzero_mask(v) is not None:
+            return True
+        if isinstance(v, ast.Subscript):
+            if isinstance(v.value, ast.Name) and v.value.id in cands and not isinstance(v.slice, ast.Slice):
+                return True
+            if _nonzero_mask(v.value) is not None:
+                return True
+            if isinstance(v.value, ast.Call) and norm(v.value.func) in ('np.arange', 'numpy.arange') and len(v.value.args) == 1 \
+                    and isinstance(v.slice, ast.Slice):
+                return True
+        return False
+    cands: Dict[str, ast.AST] = {}
+    for _ in range(3):
+        for k, v in defs.items():
+            if k not in cands and k not in fn.params and piece(v):
+                cands[k] = v
+    if cands:
+        parents = {}
+        for p_ in ast.walk(fn.node):
+            for c in ast.iter_child_nodes(p_):
+                parents[id(c)] = p_
+        stores: Dict[str, List[int]] = {}
+        for n in ast.walk(fn.node):
+            tg = []
+            if isinstance(n, ast.Assign):
+                tg = n.targets
+            elif isinstance(n, (ast.AugAssign, ast.AnnAssign)):
+                tg = [n.target]
+            for t in tg:
+                root = t
+                while isinstance(root, (ast.Subscript, ast.Attribute)):
+                    root = root.value
+                if isinstance(root, ast.Name):
+                    stores.setdefault(root.id, []).append(n.lineno)
+        def_line = {}
+        for n in ast.walk(fn.node):
+            if isinstance(n, ast.Assign) and len(n.targets) == 1 and isinstance(n.targets[0], ast.Name) and n.targets[0].id in cands \
+                    and n.value is cands[n.targets[0].id]:
+                def_line[n.targets[0].id] = n.lineno
+        good = set()
+        for k, v in cands.items():
+            if k not in def_line:
+                continue
+            ok = True
+            uses = [n for n in ast.walk(fn.node) if isinstance(n, ast.Name) and n.id == k and isinstance(n.ctx, ast.Load)]
+            if not uses:
+                continue
+            operands = {x.id for x in ast.walk(v) if isinstance(x, ast.Name)} - set(cands)
+            for u in uses:
+                par = parents.get(id(u))
+                gp = parents.get(id(par)) if par is not None else None
+                idx_pos = (isinstance(par, ast.Subscript) and par.slice is u) or \
+                          (isinstance(par, ast.Tuple) and isinstance(gp, ast.Subscript) and gp.slice is par) or \
+                          (isinstance(par, ast.Subscript) and par.value is u and not isinstance(par.slice, ast.Slice)
+                           and isinstance(parents.get(id(par)), (ast.Assign, ast.Subscript))) or \
+                          (isinstance(par, ast.Call) and norm(par.func).split('.')[-1] == 'take' and u in par.args[-2:] and u is not par.args[0])
+                if not idx_pos:
+                    ok = False
+                    break
+                for o in operands:
+                    if any(def_line[k] < ln <= u.lineno for ln in stores.get(o, []) if ln != def_line.get(o)):
+                        # the store AT the use line writes through this very index: it happens after the index was evaluated
+                        if any(def_line[k] < ln < u.lineno for ln in stores.get(o, [])):
+                            ok = False
+            if ok:
+                good.add(k)
+        # a piece defined through another piece is only substitutable when that one is
+        changed = True
+        while changed:
+            changed = False
+            for k in list(good):
+                deps = {x.id for x in ast.walk(cands[k]) if isinstance(x, ast.Name) and x.id in cands}
+                if deps - good:
+                    good.discard(k)
+                    changed = True
+        if good:
+            class S(ast.NodeTransformer):
+                def visit_Name(self, n):
+                    if n.id in good and isinstance(n.ctx, ast.Load):
+                        return ast.copy_location(S().visit(copy.deepcopy(cands[n.id])), n)
+                    return n
+
+                def visit_Assign(self, n):
+                    if len(n.targets) == 1 and isinstance(n.targets[0], ast.Name) and n.targets[0].id in good and n.value is cands[n.targets[0].id]:
+                        return ast.copy_location(ast.Pass(), n)
+                    self.generic_visit(n)
+                    return n
+            S().visit(fn.node)
+    GatherCanon().visit(fn.node)
+    ast.fix_missing_locations(fn.node)
+    return int(ast.dump(fn.node) != src0)
+
+
+def normalise_collectors(fn) -> int:
+    """A list / dict that one loop only FILLS (one element per iteration of `for T in R`) and that later code only READS
+    element-wise is removed, in place: the filling loop becomes a comprehension, and then
+
+        for x in acc: BODY                 ->  for T in R: x = E; BODY
+        for i, x in enumerate(acc): BODY   ->  for T in R: i = T; x = E; BODY          (R = range(N))
+        for x, y in zip(acc, acc2): BODY   ->  for T in R: x = E; y = E2; BODY         (both filled over the same R)
+        acc[T2] inside `for T2 in R`       ->  E[T := T2]
+
+    (E is the appended / stored expression with the filling loop's own locals expanded).  This undoes the "split one loop
+    in two and carry the per-element quantities in a list / dict" refactoring; it is applied only when the filling loop has
+    no other effect (simple assignments to locals that are not read after the loop, no branch, no break), R is a `range`
+    / a name that is not rebound, and the collector has no other use."""
+    from .model import norm
+    src0 = ast.dump(fn.node)
+
+    def pure_range(e) -> bool:
+        return isinstance(e, ast.Call) and norm(e.func) in ('range', 'np.arange') and not e.keywords and \
+            all(not any(isinstance(x, ast.Call) for x in ast.walk(a)) for a in e.args)
+
+    def subst(e, mapping):
+        class Sb(ast.NodeTransformer):
+            def visit_Name(self, n):
+                if isinstance(n.ctx, ast.Load) and n.id in mapping:
+                    return ast.copy_location(copy.deepcopy(mapping[n.id]), n)
+                return n
+        return Sb().visit(copy.deepcopy(e))
+
+    def blocks(node):
+        for x in ast.walk(node):
+            for fld in ('body', 'orelse', 'finalbody'):
+                b = getattr(x, fld, None)
+                if isinstance(b, list) and b and isinstance(b[0], ast.stmt):
+                    yield b
+
+    changed_any = False
+    for _round in range(4):
+        progress = False
+        for body in list(blocks(fn.node)):
+            # collectors initialised in this block
+            for i, st in enumerate(body):
+                if not (isinstance(st, ast.Assign) and len(st.targets) == 1 and isinstance(st.targets[0], ast.Name)):
+                    continue
+                acc = st.targets[0].id
+                v = st.value
+                kind = 'list' if (isinstance(v, ast.List) and not v.elts) or (isinstance(v, ast.Call) and norm(v.func) == 'list' and not v.args) else \
+                    'dict' if (isinstance(v, ast.Dict) and not v.keys) or (isinstance(v, ast.Call) and norm(v.func) == 'dict' and not v.args and not v.keywords) else None
+                if kind is None:
+                    continue
+                # the filling loop: the next statement of this block that mentions acc
+                j = next((k for k in range(i + 1, len(body)) if any(isinstance(x, ast.Name) and x.id == acc for x in ast.walk(body[k]))), None)
+                if j is None or not isinstance(body[j], ast.For) or body[j].orelse or not isinstance(body[j].target, ast.Name):
+                    continue
+                L = body[j]
+                T = L.target.id
+                if not pure_range(L.iter):
+                    continue
+                env = {}
+                E = None
+                ok = True
+                for k, b in enumerate(L.body):
+                    last = k == len(L.body) - 1
+                    if isinstance(b, ast.Assign) and len(b.targets) == 1 and isinstance(b.targets[0], ast.Name) and not last:
+                        if any(isinstance(x, ast.Name) and x.id == acc for x in ast.walk(b)):
+                            ok = False
+                            break
+                        env[b.targets[0].id] = subst(b.value, env)
+                    elif last and kind == 'list' and isinstance(b, ast.Expr) and isinstance(b.value, ast.Call) and norm(b.value.func) == acc + '.append' \
+                            and len(b.value.args) == 1:
+                        E = subst(b.value.args[0], env)
+                    elif last and kind == 'dict' and isinstance(b, ast.Assign) and len(b.targets) == 1 and isinstance(b.targets[0], ast.Subscript) \
+                            and norm(b.targets[0].value) == acc and norm(b.targets[0].slice) == T:
+                        E = subst(b.value, env)
+                    else:
+                        ok = False
+                        break
+                if not ok or E is None or any(isinstance(x, ast.Name) and x.id == acc for x in ast.walk(E)):
+                    continue
+                # locals of the filling loop must not be read after it
+                rest = body[j + 1:]
+                later_reads = {x.id for r in rest for x in ast.walk(r) if isinstance(x, ast.Name) and isinstance(x.ctx, ast.Load)}
+                # (reads elsewhere in the function after the loop, outside this block, are rare; be conservative and look at the whole function)
+                after = {x.id for x in ast.walk(fn.node) if isinstance(x, ast.Name) and isinstance(x.ctx, ast.Load) and x.lineno > L.lineno
+                         and not any(x is y for y in ast.walk(L))}
+                if (set(env) | {T}) & after:
+                    # a later loop may legitimately re-bind the same names before reading them: accept when every later read is preceded
+                    # by a store of that name in the same later loop
+                    def rebound_before_read(name):
+                        for r in rest:
+                            for lp in ast.walk(r):
+                                if isinstance(lp, ast.For) and any(isinstance(t, ast.Name) and t.id == name for t in ast.walk(lp.target)):
+                                    return True
+                                if isinstance(lp, ast.Assign) and any(isinstance(t, ast.Name) and t.id == name for t in lp.targets):
+                                    return True
+                        return False
+                    if not all(rebound_before_read(nm) for nm in (set(env) | {T}) & after):
+                        continue
+                # every remaining use of acc must be a recognised read
+                uses = [x for r in rest for x in ast.walk(r) if isinstance(x, ast.Name) and x.id == acc]
+                outside = [x for x in ast.walk(fn.node) if isinstance(x, ast.Name) and x.id == acc and not any(x is y for r in body for y in ast.walk(r))]
+                if outside or not uses:
+                    continue
+                R_txt = norm(L.iter)
+                plan = []
+                parents = {}
+                for r in rest:
+                    for p_ in ast.walk(r):
+                        for c in ast.iter_child_nodes(p_):
+                            parents[id(c)] = p_
+                feasible = True
+                for u in uses:
+                    par = parents.get(id(u))
+                    gp = parents.get(id(par)) if par is not None else None
+                    if isinstance(par, ast.For) and par.iter is u and kind == 'list' and isinstance(par.target, ast.Name):
+                        plan.append(('iter', par, None))
+                    elif isinstance(par, ast.Call) and norm(par.func) == 'enumerate' and len(par.args) == 1 and isinstance(gp, ast.For) and gp.iter is par \
+                            and kind == 'list' and isinstance(gp.target, ast.Tuple) and len(gp.target.elts) == 2 \
+                            and all(isinstance(t, ast.Name) for t in gp.target.elts) and len(L.iter.args) <= 2 \
+                            and (len(L.iter.args) == 1 or norm(L.iter.args[0]) == '0'):
+                        plan.append(('enum', gp, None))
+                    elif isinstance(par, ast.Subscript) and par.value is u and isinstance(par.ctx, ast.Load) and isinstance(par.slice, ast.Name):
+                        # inside a loop over the same range whose target is the subscript
+                        encl = par
+                        found = None
+                        while encl is not None:
+                            encl = parents.get(id(encl))
+                            if isinstance(encl, ast.For) and isinstance(encl.target, ast.Name) and encl.target.id == par.slice.id and norm(encl.iter) == R_txt:
+                                found = encl
+                                break
+                        if found is None:
+                            feasible = False
+                            break
+                        plan.append(('sub', par, parents))
+                    else:
+                        feasible = False
+                        break
+                if not feasible:
+                    continue
+                # apply
+                for what, node, extra in plan:
+                    if what in ('iter', 'enum'):
+                        names_in_body = {x.id for b in node.body for x in ast.walk(b) if isinstance(x, ast.Name)}
+                        if T in names_in_body or any(k in names_in_body for k in env):
+                            feasible = False
+                if not feasible:
+                    continue
+                for what, node, extra in plan:
+                    if what == 'iter':
+                        x = node.target.id
+                        pre = [ast.Assign(targets=[ast.Name(id=x, ctx=ast.Store())], value=copy.deepcopy(E))]
+                        node.target = ast.Name(id=T, ctx=ast.Store())
+                        node.iter = copy.deepcopy(L.iter)
+                        for p_ in pre:
+                            ast.copy_location(p_, node)
+                            p_.lineno = node.lineno
+                        node.body = pre + node.body
+                    elif what == 'enum':
+                        ix, x = node.target.elts[0].id, node.target.elts[1].id
+                        pre = [ast.Assign(targets=[ast.Name(id=ix, ctx=ast.Store())], value=ast.Name(id=T, ctx=ast.Load())),
+                               ast.Assign(targets=[ast.Name(id=x, ctx=ast.Store())], value=copy.deepcopy(E))]
+                        node.target = ast.Name(id=T, ctx=ast.Store())
+                        node.iter = copy.deepcopy(L.iter)
+                        for p_ in pre:
+                            ast.copy_location(p_, node)
+                        node.body = pre + node.body
+                    else:
+                        par = node
+                        repl = subst(E, {T: ast.Name(id=par.slice.id, ctx=ast.Load())})
+                        gp = extra.get(id(par))
+                        for fld, val in ast.iter_fields(gp):
+                            if val is par:
+                                setattr(gp, fld, ast.copy_location(repl, par))
+                            elif isinstance(val, list):
+                                for q, item in enumerate(val):
+                                    if item is par:
+                                        val[q] = ast.copy_location(repl, par)
+                body[j] = ast.copy_location(ast.Pass(), L)
+                body[i] = ast.copy_location(ast.Pass(), st)
+                progress = True
+                changed_any = True
+                break
+            if progress:
+                break
+        if not progress:
+            break
+    if changed_any:
+        ast.fix_missing_locations(fn.node)
+    return int(ast.dump(fn.node) != src0)
+
+
 def flatten_model(model) -> Optional[Flattener]:
     """Splice calls of post-reference helpers into their callers, in place, for every function of the model."""
     ref = load_reference()
@@ -647,7 +942,13 @@ def flatten_model(model) -> Optional[Flattener]:
     fl.slices = 0
     for f in funcs:
         fl.slices += normalise_slices(f)
+    fl.gathers = 0
+    for f in funcs:
+        fl.gathers += normalise_gathers(f)
+    fl.collectors = 0
     if not new:
+        for f in funcs:
+            fl.collectors += normalise_collectors(f)
         return fl
     # helpers first (so that a helper calling another helper is flat before it is spliced), then everything else
     for _ in range(3):
@@ -683,4 +984,6 @@ def flatten_model(model) -> Optional[Flattener]:
                 f.cls.methods.pop(f.name, None)
             else:
                 f.module.functions.pop(f.name, None)
+    for f in funcs:
+        fl.collectors += normalise_collectors(f)
     return fl
